@@ -282,7 +282,7 @@ pub fn base_sources(tier: Tier) -> Vec<(String, String)> {
     // samples of G(2,2,3,2) under rotating presentations
     {
         use crate::scopes::*;
-        let sc = Scope { n: 2, t: 2, p: 3, k: 2, symmetry: false };
+        let sc = Scope { n: 2, t: 2, p: 3, k: 2, symmetry: false, only_cyclic: false };
         let rhss = all_rhs(sc.n, sc.t, sc.k);
         let mut idx = 0u64;
         let step = tier.pick(397, 61);
